@@ -34,31 +34,26 @@ theorem sigmoidFn_lt_one (c : Nat) (s : Nat → ℝ) (k : Nat) : Spec.actFn .sig
   rw [div_lt_one (by positivity)]
   linarith [Real.exp_pos (-s k)]
 
-/-- the activation the loss puts on the last layer -/
-def actOfLoss : LossKind → Act
-  | .crossEntropy => .softmax
-  | .binaryCrossEntropy => .sigmoid
-
 /-- **`predict_proba` rows are distributions**: `n` rows, `max(c, 2)` columns, non-negative entries, sum 1 -/
 theorem predictProba_distribution (loss : LossKind) (n c : Nat) (hc : 0 < c) (e : Nat → Nat → ℝ) (i : Nat) (hi : i < n) :
-    (predictProba loss (actOutput (actOfLoss loss) (mk' n c e))).r = n ∧
-    (predictProba loss (actOutput (actOfLoss loss) (mk' n c e))).c = (if c = 1 then 2 else c) ∧
-    (∀ k, 0 ≤ (predictProba loss (actOutput (actOfLoss loss) (mk' n c e))).get i k) ∧
-    ∑ k ∈ range (if c = 1 then 2 else c), (predictProba loss (actOutput (actOfLoss loss) (mk' n c e))).get i k = 1 := by
+    (predictProba loss (actOutput (lossAct loss) (mk' n c e))).r = n ∧
+    (predictProba loss (actOutput (lossAct loss) (mk' n c e))).c = (if c = 1 then 2 else c) ∧
+    (∀ k, 0 ≤ (predictProba loss (actOutput (lossAct loss) (mk' n c e))).get i k) ∧
+    ∑ k ∈ range (if c = 1 then 2 else c), (predictProba loss (actOutput (lossAct loss) (mk' n c e))).get i k = 1 := by
   rw [actOutput_mk']
   unfold predictProba
   simp only [mk'_r, mk'_c]
   by_cases h1 : c = 1
   · subst h1
     simp only [if_true, mk'_r, mk'_c, true_and]
-    have hO : (mk' n 1 fun i k => Spec.actFn (actOfLoss loss) 1 (e i) k).get i 0 = Spec.actFn (actOfLoss loss) 1 (e i) 0 :=
+    have hO : (mk' n 1 fun i k => Spec.actFn (lossAct loss) 1 (e i) k).get i 0 = Spec.actFn (lossAct loss) 1 (e i) 0 :=
       get_mk'_of_lt _ hi (by decide)
-    have hle : Spec.actFn (actOfLoss loss) 1 (e i) 0 ≤ 1 ∧ 0 ≤ Spec.actFn (actOfLoss loss) 1 (e i) 0 := by
+    have hle : Spec.actFn (lossAct loss) 1 (e i) 0 ≤ 1 ∧ 0 ≤ Spec.actFn (lossAct loss) 1 (e i) 0 := by
       cases loss with
       | crossEntropy =>
         have := softmaxFn_sum_one 1 (by decide) (e i)
         simp only [Finset.sum_range_one] at this
-        simp only [actOfLoss, Spec.actFn, this]
+        simp only [lossAct, Spec.actFn, this]
         exact ⟨le_refl _, zero_le_one⟩
       | binaryCrossEntropy =>
         exact ⟨(sigmoidFn_lt_one 1 (e i) 0).le, (sigmoidFn_pos 1 (e i) 0).le⟩
@@ -74,7 +69,7 @@ theorem predictProba_distribution (loss : LossKind) (n c : Nat) (hc : 0 < c) (e 
   · simp only [h1, if_false]
     cases loss with
     | crossEntropy =>
-      simp only [actOfLoss, mk'_r, mk'_c, true_and]
+      simp only [lossAct, mk'_r, mk'_c, true_and]
       constructor
       · intro k
         rw [get_mk']
@@ -86,7 +81,7 @@ theorem predictProba_distribution (loss : LossKind) (n c : Nat) (hc : 0 < c) (e 
         rw [Finset.sum_congr rfl this]
         exact softmaxFn_sum_one c hc (e i)
     | binaryCrossEntropy =>
-      simp only [actOfLoss, mk'_r, mk'_c, true_and]
+      simp only [lossAct, mk'_r, mk'_c, true_and]
       have hrow : ∀ k, k < c → (mk' n c fun i k => Spec.actFn .sigmoid c (e i) k).get i k = Spec.actFn .sigmoid c (e i) k :=
         fun k hk => get_mk'_of_lt _ hi hk
       have hsum : (sumTo c fun l => (mk' n c fun i k => Spec.actFn .sigmoid c (e i) k).get i l)
